@@ -754,7 +754,8 @@ class CtxAwareTransformer(NodeTransformer):
         """Handle visiting a import statement."""
         for name in node.names:
             if name.asname is None:
-                self.ctxadd(name.name)
+                # ``import a.b.c`` binds ``a``
+                self.ctxadd(name.name.partition(".")[0])
             else:
                 self.ctxadd(name.asname)
         return node
